@@ -307,6 +307,46 @@ theorem write_input_only_these_escape (b : Beh) (f : Frame) (path : Nat) (fs : F
         · simp [hy] at h; left; exact h.1.symm
         · simp [hy] at h; right; right; right; rw [← h.1]; simpa using hy
 
+/-! ### T1: the per-format `required` lists the API trusts -/
+
+/-- the `required` lists as declared at the pinned revision (reference for "declares as required") -/
+def pinnedRequired : List (String × String × List String) :=
+  [("cube", "dump_one", ["atcoords", "atnums", "cube"]), ("fchk", "dump_one", ["atnums", "atcorenums"]),
+   ("fcidump", "dump_one", ["one_ints", "two_ints"]),
+   ("json_qcschema", "dump_one", ["atnums", "atcoords", "charge", "spinpol"]),
+   ("mol2", "dump_one", ["atcoords", "atnums"]), ("mol2", "dump_many", ["atcoords", "atnums", "atcharges"]),
+   ("molden", "dump_one", ["atcoords", "atnums", "mo", "obasis"]),
+   ("molekel", "dump_one", ["atcoords", "atnums", "mo", "obasis"]),
+   ("pdb", "dump_one", ["atcoords", "atnums", "extra"]), ("pdb", "dump_many", ["atcoords", "atnums", "extra"]),
+   ("poscar", "dump_one", ["atcoords", "atnums", "cellvecs"]),
+   ("sdf", "dump_one", ["atcoords", "atnums"]), ("sdf", "dump_many", ["atcoords", "atnums"]),
+   ("wfn", "dump_one", ["atcoords", "atnums", "mo", "obasis"]),
+   ("wfx", "dump_one", ["atcoords", "atnums", "atcorenums", "mo", "obasis", "charge"]),
+   ("xyz", "dump_one", ["atcoords", "atnums"]), ("xyz", "dump_many", ["atcoords", "atnums"])]
+
+/-- the `required` list a format function declares in the current source (`Gen/ApiRegistry`) -/
+def declared (fmt fn : String) : Option (List String) :=
+  match Gen.ApiRegistry.registry.find? (fun e => e.name == fmt && e.kind == "format") with
+  | none => none
+  | some e =>
+    match e.fns.find? (fun p => p.1 == fn) with
+    | none => none
+    | some p => (p.2.find? (fun q => q.1 == "required")).map (·.2)
+
+/-- every dump function still exists and still declares (at least) the pinned required names: the
+pre-flight check of `_check_required` therefore covers them (order and additions are free). -/
+theorem required_lists_cover_pinned :
+    pinnedRequired.all (fun t => match declared t.1 t.2.1 with
+      | none => false
+      | some names => t.2.2.all (fun n => names.contains n)) = true := by decide
+
+/-- every dump entry point of the registry is one of the pinned ones (a new dump format must be added to
+the cross product of the correspondence before it is covered). -/
+theorem dump_entry_points_pinned :
+    Gen.ApiRegistry.registry.all (fun e => e.kind != "format" || e.fns.all (fun p =>
+      (p.1 != "dump_one" && p.1 != "dump_many") || pinnedRequired.any (fun t => t.1 == e.name && t.2.1 == p.1))) = true := by
+  decide
+
 /-! ### non-vacuity: concrete behaviours evaluated by the kernel -/
 
 /-- xyz-like format, `atcoords` is None, target pre-existing with content `[7,7]`: refused, bytes kept. -/
